@@ -324,11 +324,23 @@ def load_known_findings(pid):
     return [k for k in data.get('known', []) if k['property'] == pid]
 
 
-def load_lock(pid):
+def load_lock_full(pid):
     p = os.path.join(VERIF, 'obligations.lock.json')
     if not os.path.exists(p):
-        return set()
-    return set(json.load(open(p)).get(pid, []))
+        return {}
+    return json.load(open(p)).get(pid, {})
+
+
+def load_lock(pid):
+    return set(load_lock_full(pid).get('names', []))
+
+
+def write_lock(pid, data):
+    p = os.path.join(VERIF, 'obligations.lock.json')
+    allv = json.load(open(p)) if os.path.exists(p) else {}
+    allv[pid] = data
+    with open(p, 'w') as f:
+        json.dump(allv, f, indent=1, sort_keys=True)
 
 
 def candidates_known(known, ob):
